@@ -388,7 +388,8 @@ Inductive hop :=
 | HCloseMod (m : nat) | HCloseCompiled (m : nat) | HCloseCache | HCloseRuntime
 | HDropMod (m : nat) | HDropCompiled (m : nat) | HDropRuntime | HDropCache | HGc.
 
-(* h_name: which instance holds the module's name in the store (a second instantiation under a registered name is refused) *)
+(* h_name: which instance holds the module's name in the store: imports are resolved by name (whether or not the
+   embedder still holds a handle), a second instantiation under a registered name is refused *)
 Record hstate := mkH { h_st : state; h_cm : list (option nat); h_inst : list (option nat); h_rt : bool; h_name : list (option nat);
                    h_fl : option nat (* instance of the call in flight *);
                    h_bind : list (list (option nat)) (* per module: the instances its imports were resolved to *) }.
@@ -421,7 +422,7 @@ Definition hstep (mods : list mspec) (h : hstate) (o : hop) : hstate * Z :=
   | HInst m =>
       match nth_error mods m, lookup (h_cm h) m with
       | Some ms, Some cm =>
-          match resolve (h_inst h) (ms_impf ms), resolve (h_inst h) (ms_impt ms), resolve (h_inst h) (ms_impg ms) with
+          match resolve (h_name h) (ms_impf ms), resolve (h_name h) (ms_impt ms), resolve (h_name h) (ms_impg ms) with
           | Some fi, Some ti, Some gi =>
               let sp := mkSpec cm fi ti (ms_nfun ms) (ms_nexp ms) (ms_npriv ms) (ms_nglob ms) (ms_size ms) (ms_elems ms)
                                (ms_nexpg ms) gi in
@@ -429,7 +430,7 @@ Definition hstep (mods : list mspec) (h : hstate) (o : hop) : hstate * Z :=
               if h_rt h && can_instantiate s sp then
                 if free then
                   (mkH (step s (OInstantiate sp)) (h_cm h) (set_nth (h_inst h) m (Some (length (heap s)))) (h_rt h)
-                       (set_nth (h_name h) m (Some (length (heap s)))) (h_fl h) (set_nth (h_bind h) m (h_inst h)), 0%Z)
+                       (set_nth (h_name h) m (Some (length (heap s)))) (h_fl h) (set_nth (h_bind h) m (h_name h)), 0%Z)
                 else
                   (* Store.Instantiate builds the instance completely (element segments are applied to imported
                      tables) and only then fails to register the name; the new instance is closed and forgotten *)
